@@ -15,13 +15,14 @@ Definition kw_code (k : kw) : nat :=
   | Kstruct => 0 | Ktrait => 1 | Kimpl => 2 | Kfor => 3 | Kwhere => 4 | Kforall => 5 | Kmut => 6
   | Kstatic => 7 | Kerased => 8 | Kupstream => 9 | Kfundamental => 10 | Kphantom_data => 11
   | Kauto => 12 | Kmarker => 13 | Knon_enumerable => 14 | Kcoinductive => 15 | Kobject_safe => 16
+  | Kone_zst => 17 | Kstr => 18 | Kconst => 19 | Kenum => 20
   | Kscalar s => 100 + scalar_code s
   end.
 
 Definition punct_code (p : punct) : nat :=
   match p with
   | PLt => 0 | PGt => 1 | PLParen => 2 | PRParen => 3 | PLBrace => 4 | PRBrace => 5 | PLBracket => 6
-  | PRBracket => 7 | PComma => 8 | PColon => 9 | PAmp => 10 | PBang => 11 | PHash => 12
+  | PRBracket => 7 | PComma => 8 | PColon => 9 | PAmp => 10 | PBang => 11 | PHash => 12 | PStar => 13
   end.
 
 Definition tok_eqb (a b : tok) : bool :=
@@ -32,6 +33,7 @@ Definition tok_eqb (a b : tok) : bool :=
   | LTV d i, LTV d' i' => Nat.eqb d d' && Nat.eqb i i'
   | SELF, SELF => true
   | FIELD i, FIELD j => Nat.eqb i j
+  | VARIANT i, VARIANT j => Nat.eqb i j
   | P x, P y => Nat.eqb (punct_code x) (punct_code y)
   | _, _ => false
   end.
@@ -76,6 +78,9 @@ Fixpoint ity_eqb (a b : ity) {struct a} : bool :=
          | _, _ => false
          end) xs ys
   | TRef m l t, TRef m' l' t' => Bool.eqb m m' && ilt_eqb l l' && ity_eqb t t'
+  | TRaw m t, TRaw m' t' => Bool.eqb m m' && ity_eqb t t'
+  | TSlice t, TSlice t' => ity_eqb t t'
+  | TStr, TStr | TNever, TNever => true
   | _, _ => false
   end
 with igarg_eqb (a b : igarg) {struct a} : bool :=
@@ -94,7 +99,8 @@ Definition iwc_eqb (a b : iwc) : bool :=
 Definition kinds_eqb' := list_eqb kind_eqb.
 Definition iqwc_eqb (a b : iqwc) : bool := kinds_eqb' (fst a) (fst b) && iwc_eqb (snd a) (snd b).
 Definition sflags_eqb (a b : sflags) : bool :=
-  Bool.eqb a.(sf_upstream) b.(sf_upstream) && Bool.eqb a.(sf_fundamental) b.(sf_fundamental) && Bool.eqb a.(sf_phantom_data) b.(sf_phantom_data).
+  Bool.eqb a.(sf_upstream) b.(sf_upstream) && Bool.eqb a.(sf_fundamental) b.(sf_fundamental) && Bool.eqb a.(sf_phantom_data) b.(sf_phantom_data)
+  && Bool.eqb a.(sf_one_zst) b.(sf_one_zst).
 Definition tflags_eqb (a b : tflags) : bool :=
   Bool.eqb a.(tf_auto) b.(tf_auto) && Bool.eqb a.(tf_marker) b.(tf_marker) && Bool.eqb a.(tf_upstream) b.(tf_upstream)
   && Bool.eqb a.(tf_fundamental) b.(tf_fundamental) && Bool.eqb a.(tf_non_enumerable) b.(tf_non_enumerable)
@@ -103,6 +109,8 @@ Definition iitem_eqb (a b : iitem) : bool :=
   match a, b with
   | IStruct n ps fl fs ws, IStruct n' ps' fl' fs' ws' =>
       N.eqb n n' && kinds_eqb' ps ps' && sflags_eqb fl fl' && list_eqb ity_eqb fs fs' && list_eqb iqwc_eqb ws ws'
+  | IEnum n ps fl vs ws, IEnum n' ps' fl' vs' ws' =>
+      N.eqb n n' && kinds_eqb' ps ps' && sflags_eqb fl fl' && list_eqb (list_eqb ity_eqb) vs vs' && list_eqb iqwc_eqb ws ws'
   | ITrait n ps fl ws, ITrait n' ps' fl' ws' =>
       N.eqb n n' && kinds_eqb' ps ps' && tflags_eqb fl fl' && list_eqb iqwc_eqb ws ws'
   | IImpl ps up pos tr args self ws, IImpl ps' up' pos' tr' args' self' ws' =>
